@@ -190,7 +190,9 @@ def check_fiber(case, rec, spec, req, active):
                     raise Violation("partition-payload", f"partition {b} element {c}: payload {p!r}, original {orig}")
             elif observe.content_of(p, d - 1, default) != model.content_of_tree(orig, d - 1, default):
                 raise Violation("partition-payload", f"partition {b} element {c}: sub-tree content changed")
-        if lower.getActive() != (lo, hi):
+        # (with relative coordinates the statement does not say in which coordinate system the partition
+        # reports its interval: the parent's, or its own, i.e. shifted by the partition start)
+        if lower.getActive() != (lo, hi) and not (nreq["relative"] and lower.getActive() == (lo - b, hi - b)):
             raise Violation("partition-active", f"partition {b}: active range {lower.getActive()}, expected "
                             f"({lo}, {hi}); request={req} parent active=({a0},{a1})")
     # without halos: every active non-empty element at/after the first boundary exactly once
@@ -255,7 +257,9 @@ def check(case, rec):
                     raise Violation("resplit-upper", f"re-split of partition {b} (active {lo},{hi}) gives upper "
                                     f"coordinates {g2.coords}, expected {[bb for bb, _, _ in w2]}; request={req2}")
                 for (bb, rng, el2), l2 in zip(w2, g2.payloads):
-                    if nonempty(l2, d, default)[0] != [c for c, _ in el2] or l2.getActive() != rng:
+                    act_ok = l2.getActive() == rng or \
+                        (n2["relative"] and l2.getActive() == (rng[0] - bb, rng[1] - bb))
+                    if nonempty(l2, d, default)[0] != [c for c, _ in el2] or not act_ok:
                         raise Violation("resplit-elems", f"re-split partition {b}/{bb}: coords {l2.coords} active "
                                         f"{l2.getActive()}, expected {[c for c, _ in el2]} {rng}")
             rec.cls("resplit")
@@ -311,7 +315,7 @@ def check(case, rec):
                             f"{[b for b, _, _ in parts]}")
         for b, rng, _ in parts:
             lower = up.payloads[up.coords.index(b)]
-            if lower.getActive() != rng:
+            if lower.getActive() != rng and not (n["relative"] and lower.getActive() == (rng[0] - b, rng[1] - b)):
                 raise Violation("partition-active", f"partition {prefix}+({b},): active range {lower.getActive()}, "
                                 f"expected {rng}")
     nreq = norm_req(req, S, 1)
